@@ -1,5 +1,5 @@
 """C13 — thumbprints are the RFC 7638 value and depend only on the public key; auto kid."""
-import base64, hashlib, json, os, glob, random
+import base64, hashlib, json, os, glob, random, copy
 import lib
 from lib import c_hex, c_str, c_Z, c_N, c_bool, c_list, c_opt, c_pv, c_exn, exn_class
 
@@ -198,15 +198,16 @@ def kty_of(native):
 
 def build_key(native, v):
     """Construct a joserfc key from the native key in the representation
-    described by the variant v.  -> (key, dict handed to import or None)"""
+    described by the variant v.  -> (key, (dict, params) as handed to import or
+    None, [the caller-owned mutable objects handed to the library])"""
     from joserfc.jwk import JWKRegistry
     kty = kty_of(native)
     cls = cls_of(kty)
-    opts = v.get("opts")
+    opts = copy.deepcopy(v.get("opts"))        # the application's own objects: the variant itself is never handed out
     r = v["repr"]
     if r in ("native", "native-pub"):
         nk = native if r == "native" else public_of(native)
-        return cls(nk, nk, opts), None            # what generate_key / import of bytes does
+        return cls(nk, nk, opts), None, [opts]            # what generate_key / import of bytes does
     if r in ("dict", "dict-pub", "dict-d-only"):
         d = ref_jwk(native if r != "dict-pub" else public_of(native))
         if r == "dict-d-only":
@@ -218,19 +219,137 @@ def build_key(native, v):
         items = list(d.items())
         random.Random(v.get("order", 0)).shuffle(items)
         d = dict(items)
-        given = dict(d)
+        given = copy.deepcopy(d)
+        gparams = copy.deepcopy(params)
         if v.get("via_registry"):
-            return JWKRegistry.import_key(d, parameters=params), (given, params)
-        return cls.import_key(d, params), (given, params)
+            return JWKRegistry.import_key(d, parameters=params), (given, gparams), [d, params]
+        return cls.import_key(d, params), (given, gparams), [d, params]
     if r == "bytes":
-        return cls.import_key(native, opts), None
+        return cls.import_key(native, opts), None, [opts]
     enc, private = r.split("-")[0], not r.endswith("-pub")
     data = serialize(native, enc, private, v.get("fmt", "pkcs8"))
     if v.get("as_str") and enc == "pem":
         data = data.decode("ascii")
     if v.get("via_registry"):
-        return JWKRegistry.import_key(data, kty, opts), None
-    return cls.import_key(data, opts), None
+        return JWKRegistry.import_key(data, kty, opts), None, [opts]
+    return cls.import_key(data, opts), None, [opts]
+
+
+# --------------------------------------------------------------------------
+# aliasing / stability over histories: whatever the application does with the
+# objects the library returned to it (or with the objects it handed in), the
+# key keeps its thumbprint, kid and members
+# --------------------------------------------------------------------------
+def scramble(obj, rng, kty):
+    """deep-edit an object the application owns"""
+    if isinstance(obj, list):
+        rng.choice([lambda: obj.append("scrambled"), obj.clear, lambda: obj.insert(0, "deriveBits")])()
+        return
+    if not isinstance(obj, dict):
+        return
+    for x in list(obj.values()):
+        if isinstance(x, (list, dict)):
+            scramble(x, rng, None)
+    if kty is None:
+        obj["scrambled"] = 1
+        return
+    req = [m for m in REQ[kty] if m in obj]
+    for op in rng.sample(range(8), rng.randrange(2, 6)):
+        if op == 0:
+            obj.pop("kid", None)
+        elif op == 1:
+            obj["kid"] = "scrambled-kid"
+        elif op == 2 and req:
+            obj.pop(rng.choice(req), None)
+        elif op == 3 and req:
+            obj[rng.choice(req)] = "AAAA"
+        elif op == 4:
+            obj[rng.choice(["use", "alg", "zzz", "key_ops"])] = rng.choice(["enc", "none", ["sign"]])
+        elif op == 5:
+            obj.pop("d", None)
+        elif op == 6:
+            obj.clear()
+        else:
+            obj["kty"] = "oct" if kty != "oct" else "RSA"
+
+
+def scalars(d):
+    return {k: x for k, x in d.items() if not isinstance(x, (list, dict))}
+
+
+EXPORT_WAYS = ["as_dict()", "as_dict(None)", "as_dict(True)", "as_dict(False)", "as_dict(**params)", "as_dict(True,**params)",
+               "as_dict(False,**params)", "dict(key)", "key[member]", "key.get(member)", "KeySet.as_dict()", "KeySet.as_dict(False)",
+               "KeySet.as_dict(**params)", "inputs"]
+
+
+def export_via(K, how, owned, ks):
+    """-> list of application-owned objects obtained from the key in the way `how`"""
+    p = {"alg": "x-alg", "zz": ["1"]}
+    if how == "as_dict()":
+        return [K.as_dict()]
+    if how == "as_dict(None)":
+        return [K.as_dict(None)]
+    if how == "as_dict(True)":
+        return [K.as_dict(True)] if K.is_private else []
+    if how == "as_dict(False)":
+        return [K.as_dict(False)]
+    if how == "as_dict(**params)":
+        return [K.as_dict(**p), p]
+    if how == "as_dict(True,**params)":
+        return [K.as_dict(True, **p), p] if K.is_private else []
+    if how == "as_dict(False,**params)":
+        return [K.as_dict(False, **p), p]
+    if how == "dict(key)":
+        return [dict(K), {k: K[k] for k in K.keys()}]
+    if how == "key[member]":
+        return [K[k] for k in list(K.keys()) if isinstance(K[k], (list, dict))]
+    if how == "key.get(member)":
+        return [K.get(k) for k in ("key_ops", "ext", "x5c") if isinstance(K.get(k), (list, dict))]
+    if how == "KeySet.as_dict()":
+        o = ks.as_dict()
+        return [o] + list(o["keys"])
+    if how == "KeySet.as_dict(False)":
+        o = ks.as_dict(False)
+        return [o] + list(o["keys"])
+    if how == "KeySet.as_dict(**params)":
+        o = ks.as_dict(**p)
+        return [o] + list(o["keys"]) + [p]
+    if how == "inputs":
+        return [o for o in owned if o is not None]
+    raise AssertionError(how)
+
+
+def history_probe(K, how, owned, rng, want, reps=3):
+    """export in the way `how`, scramble what came back, re-inspect the key; `reps` times.
+    -> (hard problem or None, nested-container difference or None)"""
+    from joserfc.jwk import KeySet
+    kty = K.key_type
+    K.ensure_kid()
+    kid1, t1 = K.kid, K.thumbprint()
+    snap = copy.deepcopy(K.as_dict())
+    ks = KeySet([K])
+    soft = None
+    for rep in range(reps):
+        objs = export_via(K, how, owned, ks)
+        for o in objs:
+            scramble(o, rng, kty if isinstance(o, dict) and "keys" not in o else None)
+            if isinstance(o, dict) and "keys" in o and isinstance(o["keys"], list):
+                rng.choice([o["keys"].clear, lambda: o["keys"].append({"kty": "oct", "k": "AAAA"}), lambda: None])()
+        t2, kid2, fresh = K.thumbprint(), K.kid, K.as_dict()
+        if t2 != t1 or (want is not None and t2 != want):
+            return "thumbprint changed from %r to %r (RFC 7638 value %r)" % (t1, t2, want), soft
+        if kid2 != kid1 or fresh.get("kid") != kid1:
+            return "kid changed from %r to %r (exported: %r)" % (kid1, kid2, fresh.get("kid")), soft
+        if scalars(fresh) != scalars(snap) or set(fresh) != set(snap) or list(fresh) != list(snap):
+            return "a fresh as_dict() differs from the one before the export: %r -> %r" % (scalars(snap), scalars(fresh)), soft
+        g = call(ks.get_by_kid, kid1)
+        if g[0] != "ok" or g[1] is not K:
+            return "KeySet.get_by_kid(%r) no longer finds the key: %r" % (kid1, g[1]), soft
+        if fresh != snap and soft is None:
+            soft = "nested member changed: %r -> %r" % ({k: x for k, x in snap.items() if fresh.get(k) != x},
+                                                        {k: x for k, x in fresh.items() if snap.get(k) != x})
+            snap = copy.deepcopy(fresh)
+    return None, soft
 
 
 def c_native(native):
@@ -486,7 +605,7 @@ def run(ctx):
         meta.append(m)
 
     dist = {"json": 0, "sha256": 0, "thumb_direct": 0, "thumb_direct_err": 0, "keys": 0, "key_variants": 0, "ec_short": 0,
-            "kid_flows": 0, "keysets": 0, "generated": 0, "digest_variants": 0, "spec": 0, "fixtures": 0}
+            "kid_flows": 0, "histories": 0, "keysets": 0, "generated": 0, "digest_variants": 0, "spec": 0, "fixtures": 0}
     per_repr = {}
 
     # ---- reference self-check on the RFC vectors (a failure here is a harness bug)
@@ -592,6 +711,7 @@ def run(ctx):
                                       {"fn": "key", "jwk": j, "variant": {"repr": "literal"}, "want": want})
 
         keys_for_sets = []
+        soft = {"nested": 0, "late_params_probes": 0, "late_params_affected": 0}
         rsa_budget = {True: ctx.scale(1, 6), False: ctx.scale(2, 6)}
 
         def check_key(label, native, v):
@@ -608,7 +728,7 @@ def run(ctx):
                 ctx.violation(dict(sig, kind="key-construction-raises"),
                               "constructing %s as %s raised %r" % (label, v, b[1]), rp)
                 return None
-            K, given = b[1]
+            K, given, owned = b[1]
             rec.take()
             r = call(K.thumbprint)
             calls = rec.take()
@@ -708,6 +828,38 @@ def run(ctx):
                     ctx.violation(dict(sig, kind="thumbprint-view-mismatch"),
                                   "key re-imported from as_dict(private=%r) of %s has thumbprint %r / kid %r, expected %r / %r" % (
                                       private, label, t3[1], r2[1].kid, want, kid1), rp)
+            # -- aliasing / stability over histories: export, scramble what came back (or what was handed in), re-inspect
+            for how in EXPORT_WAYS:
+                hseed = rng.randrange(1 << 30)
+                hp = call(history_probe, K, how, owned, random.Random(hseed), want)
+                dist["histories"] += 1
+                ctx.note_case(("history", label, v["repr"], how, hseed))
+                hrp = dict(rp, fn="history", how=how, hseed=hseed)
+                if hp[0] != "ok":
+                    ctx.violation(dict(sig, kind="history-raises", via=how), "export/edit/re-inspect via %s raised %r" % (how, hp[1]), hrp)
+                    break
+                if hp[1][0] is not None:
+                    ctx.violation(dict(sig, kind="export-aliases-key", via=how),
+                                  "after editing the object obtained from %s via %s: %s" % (label, how, hp[1][0]), hrp)
+                    break
+                if hp[1][1] is not None:
+                    soft["nested"] += 1
+                    soft.setdefault("nested_witness", {"label": label, "repr": v["repr"], "via": how, "what": hp[1][1][:300]})
+            # (recorded, not a violation) a parameters dict edited by the caller BEFORE the key first materialises its dict_value
+            if v["repr"] in ("native", "native-pub", "bytes", "pem", "der", "pem-pub", "der-pub") and v.get("opts"):
+                b2 = call(build_key, native, v)
+                if b2[0] == "ok":
+                    K2, _, own2 = b2[1]
+                    own2[0]["kid"] = "edited-later"
+                    for m in REQ[kty]:
+                        if m != "kty":
+                            own2[0][m] = "AAAA"
+                    soft["late_params_probes"] += 1
+                    r5 = call(lambda: (K2.thumbprint(), K2.kid))
+                    if r5 != ("ok", (want, v["opts"].get("kid"))):
+                        soft["late_params_affected"] += 1
+                        soft.setdefault("late_params_witness", {"label": label, "repr": v["repr"], "opts": v["opts"],
+                                                                "thumbprint_kid_after_edit": repr(r5[1]), "rfc7638": want})
             return K
 
         for label, native in materials:
@@ -804,7 +956,7 @@ def run(ctx):
                 if kty_of(nk) == "RSA" and v["repr"] == "dict-d-only":
                     v["repr"] = "dict"
                 vs.append(v)
-            b = call(lambda: [build_key(nk, v)[0] for nk, v in zip(natives, vs)])
+            b = call(lambda: [build_key(nk, v)[0] for nk, v in zip(natives, vs)])  # noqa
             if b[0] != "ok":
                 continue            # reported by the per-key checks
             keys = b[1]
@@ -844,6 +996,22 @@ def run(ctx):
                             any(k2.thumbprint() != k.thumbprint() for k2, k in zip(im[1].keys, keys)):
                         ctx.violation({"kind": "keyset-reimport"},
                                       "re-importing KeySet.as_dict(private=%r) changed kids or thumbprints (%r)" % (private, im[1] if im[0] != "ok" else ""), rp)
+                # scramble the exported JWKS (and a second export) and re-inspect the keys of the set
+                kset = KeySet(keys)
+                state = [(k.kid, k.thumbprint(), scalars(k.as_dict())) for k in keys]
+                for rep in range(2):
+                    out = kset.as_dict(private, **params) if rep == 0 else kset.as_dict()
+                    for e in list(out["keys"]):
+                        scramble(e, rng, e.get("kty") if e.get("kty") in REQ else "oct")
+                    scramble(out, rng, None)
+                    now = [(k.kid, k.thumbprint(), scalars(k.as_dict())) for k in keys]
+                    found = [call(kset.get_by_kid, kid)[0] == "ok" for kid, _, _ in state]
+                    if now != state or not all(found):
+                        ctx.violation({"kind": "export-aliases-key", "via": "KeySet.as_dict"},
+                                      "after editing the dicts inside KeySet.as_dict(%r)['keys'] the keys of the set changed: %r -> %r (get_by_kid ok: %r)" % (
+                                          private if rep == 0 else None, [x[:2] for x in state], [x[:2] for x in now], found),
+                                      dict(rp, scramble_exports=True))
+                        break
             elif not (private is True and any(not k.is_private for k in keys)):
                 ctx.violation({"kind": "keyset-raises"}, "KeySet(...).as_dict(private=%r) raised %r" % (private, r[1]), rp)
         for kty, arg in (("oct", 128), ("EC", "P-256"), ("OKP", "Ed25519")):
@@ -857,6 +1025,7 @@ def run(ctx):
         M.hashlib = saved_hashlib
 
     dist["per_repr"] = per_repr
+    ctx.coverage["recorded_not_demanded"] = soft
     ctx.coverage["input_distribution"] = dist
     ctx.coverage["rule"] = ("Key.thumbprint() == base64url(SHA-256(RFC 7638 canonical JSON of the public key built by an independent "
                             "reference from the native key numbers)), for every representation / optional members / order; "
@@ -929,6 +1098,17 @@ def replay(path):
     import joserfc.jwk  # noqa
     r = json.load(open(path))["replay"]
     print("replay:", {k: (v if k != "case" else v[:200]) for k, v in r.items()})
+    if r.get("fn") == "history":
+        native = native_from_jwk(r["jwk"])
+        K, _, owned = build_key(native, r["variant"])
+        want = ref_thumbprint(ref_jwk(public_of(native)))
+        hp = call(history_probe, K, r["how"], owned, random.Random(r["hseed"]), want)
+        if hp[0] != "ok":
+            print("export via", r["how"], "-> re-inspecting the key raised %r" % (hp[1],))
+            return 1
+        hard, softd = hp[1]
+        print("export via", r["how"], "->", hard or "key unchanged", "|", softd or "")
+        return 1 if hard else 0
     if r.get("fn") == "key":
         jwk, v = r["jwk"], r["variant"]
         native = native_from_jwk(jwk)
@@ -940,7 +1120,7 @@ def replay(path):
             sub = type("Sub", (cls_of(jwk["kty"]),), {"thumbprint_digest_method": v["digest"]})
             K = sub(native, native)
         else:
-            K, _ = build_key(native, v)
+            K, _, _ = build_key(native, v)
         had = "kid" in K.dict_value
         kid0 = K.dict_value.get("kid")
         t = K.thumbprint()
